@@ -1291,6 +1291,86 @@ Proof.
   vm_compute. split; [reflexivity|]. split; [reflexivity|]. eexists. split; reflexivity.
 Qed.
 
+(* ------------------------------------------------------------------ *)
+(* wb_into_lines_markers: the lines of wb_into_lines, plus the elements left on the unfinished
+   last line.  After wb_flush that line has no content (flush_line emits every line that has
+   content), so the leftovers are markers (Frag) only.  No invariant is needed for any of this. *)
+
+Lemma wb_into_lines_markers_eq b :
+  wb_into_lines_markers b = do b1 <- wb_flush b; Ok (wtext b1, tv (wline b1)).
+Proof. reflexivity. Qed.
+
+(* same outcome as wb_into_lines, lines = first component *)
+Lemma wb_into_lines_of_markers b :
+  wb_into_lines b = do lm <- wb_into_lines_markers b; Ok (fst lm).
+Proof. unfold wb_into_lines, wb_into_lines_markers. destruct (wb_flush b); reflexivity. Qed.
+
+Lemma wb_into_lines_markers_fst b lm :
+  wb_into_lines_markers b = Ok lm -> wb_into_lines b = Ok (fst lm).
+Proof. intros H. rewrite wb_into_lines_of_markers, H. reflexivity. Qed.
+
+Lemma wb_into_lines_markers_ex b ls :
+  wb_into_lines b = Ok ls -> exists m, wb_into_lines_markers b = Ok (ls, m).
+Proof.
+  unfold wb_into_lines, wb_into_lines_markers. destruct (wb_flush b) as [b1| | |]; cbn [bind];
+    try discriminate.
+  intros [= <-]. eexists. reflexivity.
+Qed.
+
+(* failures coincide *)
+Lemma wb_into_lines_markers_fail b :
+  match wb_into_lines_markers b, wb_into_lines b with
+  | Ok lm, Ok ls => ls = fst lm
+  | TooNarrow, TooNarrow => True
+  | Panic i, Panic j => i = j
+  | OutOfFuel, OutOfFuel => True
+  | _, _ => False
+  end.
+Proof. unfold wb_into_lines, wb_into_lines_markers. destruct (wb_flush b); cbn [bind fst]; auto. Qed.
+
+Lemma force_flush_line_empty b b' : force_flush_line b = Ok b' -> wline b' = tl_new.
+Proof.
+  unfold force_flush_line. intros H.
+  destruct (if pad_blocks b then _ else _); cbn [bind] in H; try discriminate.
+  injection H as <-. reflexivity.
+Qed.
+
+Lemma flush_line_empty b b' : flush_line b = Ok b' -> tl_is_empty (wline b') = true.
+Proof.
+  unfold flush_line. destruct (tl_is_empty (wline b)) eqn:E; intros H.
+  - injection H as <-. exact E.
+  - rewrite (force_flush_line_empty _ _ H). reflexivity.
+Qed.
+
+Lemma wb_flush_empty b b' : wb_flush b = Ok b' -> tl_is_empty (wline b') = true.
+Proof.
+  unfold wb_flush. destruct (flush_word b WsNormal); cbn [bind]; try discriminate.
+  apply flush_line_empty.
+Qed.
+
+Lemma no_content_frags (v : list elem) :
+  existsb elem_has_content v = false -> forall e, In e v -> exists n, e = Frag n.
+Proof.
+  induction v as [|e v IH]; intros H e' He'; [destruct He'|].
+  cbn [existsb] in H. apply Bool.orb_false_iff in H. destruct H as [H1 H2].
+  destruct He' as [<-|He']; [|apply IH; assumption].
+  destruct e as [s t|n]; [discriminate|eexists; reflexivity].
+Qed.
+
+(* the leftover elements have no content: they are all markers *)
+Lemma wb_into_lines_markers_no_content b lm :
+  wb_into_lines_markers b = Ok lm -> existsb elem_has_content (snd lm) = false.
+Proof.
+  unfold wb_into_lines_markers. destruct (wb_flush b) as [b1| | |] eqn:E; cbn [bind];
+    try discriminate.
+  intros [= <-]. cbn [snd]. apply wb_flush_empty in E. unfold tl_is_empty in E.
+  apply Bool.negb_true_iff in E. exact E.
+Qed.
+
+Lemma wb_into_lines_markers_frags b lm :
+  wb_into_lines_markers b = Ok lm -> forall e, In e (snd lm) -> exists n, e = Frag n.
+Proof. intros H. apply no_content_frags. eapply wb_into_lines_markers_no_content, H. Qed.
+
 Print Assumptions wb_new_Inv.
 Print Assumptions force_flush_line_total.
 Print Assumptions flush_line_total.
